@@ -227,5 +227,5 @@ func (m *Mask) maskValue(value, buf []byte) ([]byte, bool) {
 		}
 	}
 
-	return append(buf, value[curFinish:]...), true
+	return append(buf, value[prevFinish:]...), true
 }
